@@ -356,13 +356,14 @@ class C15(Prop):
         if failure["kind"] == "not-run-at-trigger":
             # an operator between the finalizer and the probe that completes by itself?
             pos = failure.get("pos", 0)
-            # (the known finding is about a SOURCE TERMINAL that the subject no longer hands to a finished
-            # observer; an `unsubscribe()` after which the callback has not run is a different violation)
+            # (the finding recorded under this signature — fixed by `fix: Subject::error/complete hand the
+            # terminal to every subscriber` — was about a SOURCE TERMINAL that the subject did not hand to a
+            # finished observer; an `unsubscribe()` after which the callback has not run is a different violation)
             if failure.get("trigger_ev", "emit") == "emit":
                 shape = "early-op-downstream" if any(e[0] in EARLY for e in chain[pos + 1:]) else shape
             if failure.get("trigger") == "upstream":
                 # the terminal comes from an operator ABOVE the finalizer, not from the subject (which is what
-                # the known finding is about): a different violation
+                # the recorded finding was about): a different violation
                 shape = "upstream-completion"
         return f"{failure['kind']}|finalize|{shape}"
 
